@@ -9,6 +9,7 @@
 //! 1 = new violation (a line `VIOLATION property=<id> replay=<path>` is printed),
 //! 2 = harness error.
 
+mod c19;
 mod evidence;
 mod exec;
 mod gen;
@@ -95,7 +96,17 @@ fn main() {
             if args.len() < 4 {
                 usage();
             }
+            if args[2] == "C19" {
+                exit(c19::check(&args[3]));
+            }
             exit(runner::check(&args[2], &args[3]));
+        }
+        "c19worker" => {
+            let p = |i: usize| -> u64 { args.get(i).and_then(|s| s.parse().ok()).unwrap_or(0) };
+            exit(c19::worker(p(2), p(3), p(4), p(5).max(1)));
+        }
+        "c19case" => {
+            exit(c19::run_case_file(&args[2]));
         }
         "explore" => {
             if args.len() < 3 {
@@ -107,6 +118,9 @@ fn main() {
         "replay" => {
             if args.len() < 3 {
                 usage();
+            }
+            if args[2].contains("/C19-") || args[2].contains("/C19_") {
+                exit(c19::replay(&args[2]));
             }
             exit(runner::replay(&args[2]));
         }
